@@ -1,14 +1,19 @@
 /-
   Kernel-checked tie (C19): `(*Pll).Do` of core/sync/adjustments/pll.go as regenerated from
   /repo's Go source on every run (Gen/Leaf.lean, leaf translator: tagged switch, `l.mode++`,
-  `l.clk.Epoch()` / `l.clk.Now()` / `math.Pow(…)` as parameters — one value per call —,
+  `l.clk.Epoch()` (twice) / `l.clk.Now()` as parameters — one per CALL SITE —, `math.Pow` as a
+  function-typed parameter applied to the translated arguments of each call site (eighth generation),
   `l.clk.Step` / `l.clk.Adjust` as recorded actions, the four panics as `none`, log statements
   skipped) agrees with the hand-written model `Pll.step` that every C19 theorem is about: same new
   state, same calls on the clock in the same order, panic exactly when the model panics.
 
-  PROVED (`C19_leaf_Do`), for ALL inputs:
-      ∀ l off w e now pw,
-        Agree (adjustments_Pll_Do l off w e now pw) (Pll.step (pl l) e.toNat now off.toInt w pw)
+  PROVED (`C19_leaf_Do`), for ALL inputs (both epoch readings, every function `pf` for math.Pow):
+      ∀ l off w e1 e2 now pf, let (l', e') := readEpoch l e1 e2
+        Agree (adjustments_Pll_Do l off w e1 e2 now pf)
+              (Pll.step (pl l') e'.toNat now off.toInt w (pf stiffenRate (dtOf l now)))
+  `C19_leaf_Do_stable` is the case e1 = e2 (then l' = l up to the model's own epoch test),
+  `C19_leaf_Do_pow_args` says the code uses `pf` only at `(stiffenRate, dt)`,
+  `C19_leaf_Do_two_readings` reduces two different readings to one.
   — every mode (start-up, awaiting step, awaiting PLL, tracking, unexpected), the epoch test, all
   three gain regimes of the tracking mode (weight < 50, < 150, the stiffening with `math.Pow`), the
   integrator, the clamp to ±500 ppm × ⌈dt⌉, `timemath.Duration`, the `d > 0` guard of `Adjust`, the
@@ -118,14 +123,22 @@ theorem uint64_ne (a b : UInt64) (h : (a != b) = true) : a.toNat ≠ b.toNat := 
 
 /-! ### the generated definition, cut into the pieces the model is made of (by `rfl`) -/
 
-/-- the epoch test at the top of `Do` -/
-def gSync (l : S_Pll) (e : UInt64) : S_Pll :=
-  if (l.epoch != e) then
-    let l : S_Pll := { l with epoch := e }
+/-- the epoch test at the top of `Do`: `if l.epoch != l.clk.Epoch() { l.epoch = l.clk.Epoch(); l.mode = 0 }`
+    — TWO readings of the clock's epoch (`e1` compared, `e2` stored), each a parameter of its own since
+    the eighth generation of the translator -/
+def gSync (l : S_Pll) (e1 e2 : UInt64) : S_Pll :=
+  if (l.epoch != e1) then
+    let l : S_Pll := { l with epoch := e2 }
     let l : S_Pll := { l with mode := (0 : UInt64) }
     l
   else
     l
+
+/-- `stiffenRate = 0.999`, the first argument of both `math.Pow` calls -/
+def stiffenRate : F64.F64 := F64.ofConst 999 1000
+
+/-- `dt = now.Sub(l.t).Seconds()`, the second argument of both `math.Pow` calls -/
+def dtOf (l : S_Pll) (now : Int) : F64.F64 := F64.durationSeconds (timeSub now l.t)
 
 /-- the tail after the switch: `l.t = now`, `if d > 0.0 { l.clk.Adjust(…) }` -/
 def gFinish (l : S_Pll) (now : Int) (p d : F64.F64) (acts : List Go.ClkAction) :
@@ -140,7 +153,8 @@ def gFinish (l : S_Pll) (now : Int) (p d : F64.F64) (acts : List Go.ClkAction) :
   some ((l, acts))
 
 /-- the gain selection of `case 3` -/
-def gGains (l : S_Pll) (mdt : Int64) (weight pw : F64.F64) : F64.F64 × F64.F64 × S_Pll :=
+def gGains (l : S_Pll) (mdt : Int64) (weight : F64.F64) (ext_Pow : F64.F64 → F64.F64 → F64.F64) (dt : F64.F64) :
+    F64.F64 × F64.F64 × S_Pll :=
   if (F64.lt weight (F64.ofInt 50)) then
     let a : F64.F64 := (F64.ofConst (3) 100)
     let b : F64.F64 := (F64.ofConst (1) 2000)
@@ -154,8 +168,8 @@ def gGains (l : S_Pll) (mdt : Int64) (weight pw : F64.F64) : F64.F64 × F64.F64 
       else
         let l :=
           if ((decide (mdt > (300000000000 : Int64))) && (F64.gt l.a (F64.ofConst (3) 100))) then
-            let l : S_Pll := { l with a := (F64.mul l.a pw) }
-            let l : S_Pll := { l with b := (F64.mul l.b pw) }
+            let l : S_Pll := { l with a := (F64.mul l.a (ext_Pow (F64.ofConst (999) 1000) dt)) }
+            let l : S_Pll := { l with b := (F64.mul l.b (ext_Pow (F64.ofConst (999) 1000) dt)) }
             l
           else
             l
@@ -224,7 +238,7 @@ def gMode2 (l : S_Pll) (now : Int) : Option (S_Pll × List Go.ClkAction) :=
         l
     gFinish l now (F64.ofInt 0) (F64.ofInt 0) []
 
-def gMode3 (l : S_Pll) (offset : Int64) (weight : F64.F64) (now : Int) (pw : F64.F64) :
+def gMode3 (l : S_Pll) (offset : Int64) (weight : F64.F64) (now : Int) (pw : F64.F64 → F64.F64 → F64.F64) :
     Option (S_Pll × List Go.ClkAction) :=
   let mdt : Int64 := (Go.Time.sub now l.t0)
   if (decide (mdt < (0 : Int64))) then
@@ -234,15 +248,16 @@ def gMode3 (l : S_Pll) (offset : Int64) (weight : F64.F64) (now : Int) (pw : F64
     if (F64.lt dt (F64.ofInt 0)) then
       none
     else
-      let (a, b, l) := gGains l mdt weight pw
+      let (a, b, l) := gGains l mdt weight pw dt
       gTrack l a b dt offset now
 
 /-- The generated `(*Pll).Do` IS the composition of the pieces above — definitional equality,
     re-checked against the regenerated definition on every run. -/
-theorem do_pieces (l : S_Pll) (off : Int64) (w : F64.F64) (e : UInt64) (now : Int) (pw : F64.F64) :
-    adjustments_Pll_Do l off w e now pw =
+theorem do_pieces (l : S_Pll) (off : Int64) (w : F64.F64) (e1 e2 : UInt64) (now : Int)
+    (pw : F64.F64 → F64.F64 → F64.F64) :
+    adjustments_Pll_Do l off w e1 e2 now pw =
       (let offset := timemath_Inv off
-       let l := gSync l e
+       let l := gSync l e1 e2
        if (l.mode == (0 : UInt64)) then gMode0 l now
        else if (l.mode == (1 : UInt64)) then gMode1 l offset w now
        else if (l.mode == (2 : UInt64)) then gMode2 l now
@@ -251,7 +266,7 @@ theorem do_pieces (l : S_Pll) (off : Int64) (w : F64.F64) (e : UInt64) (now : In
 
 /-! ### each piece agrees with its counterpart in Model/Pll.lean -/
 
-theorem pl_sync (l : S_Pll) (e : UInt64) : pl (gSync l e) = syncEpoch (pl l) e.toNat := by
+theorem pl_sync (l : S_Pll) (e : UInt64) : pl (gSync l e e) = syncEpoch (pl l) e.toNat := by
   unfold gSync syncEpoch
   by_cases he : (l.epoch != e) = true
   · have he' : (pl l).epoch ≠ e.toNat := uint64_ne _ _ he
@@ -274,11 +289,12 @@ theorem mode_succ (l : S_Pll) (k : Nat) (hk : k < 3) (h : l.mode = UInt64.ofNat 
   have : k = 0 ∨ k = 1 ∨ k = 2 := by omega
   rcases this with rfl | rfl | rfl <;> rfl
 
-theorem gains_agree (l : S_Pll) (mdt : Int64) (w pw : F64.F64) :
-    (gGains l mdt w pw).1 = (gains (pl l) mdt.toInt w pw).2.1 ∧
-    (gGains l mdt w pw).2.1 = (gains (pl l) mdt.toInt w pw).2.2 ∧
-    pl (gGains l mdt w pw).2.2 = (gains (pl l) mdt.toInt w pw).1 := by
-  unfold gGains gains
+theorem gains_agree (l : S_Pll) (mdt : Int64) (w : F64.F64) (pf : F64.F64 → F64.F64 → F64.F64) (dt : F64.F64) :
+    (gGains l mdt w pf dt).1 = (gains (pl l) mdt.toInt w (pf stiffenRate dt)).2.1 ∧
+    (gGains l mdt w pf dt).2.1 = (gains (pl l) mdt.toInt w (pf stiffenRate dt)).2.2 ∧
+    pl (gGains l mdt w pf dt).2.2 = (gains (pl l) mdt.toInt w (pf stiffenRate dt)).1 := by
+  unfold gGains gains stiffenRate
+  generalize pf (F64.ofConst 999 1000) dt = pw
   rw [k50, k150, kbLow, kaMid, kaLow, kbMid]
   by_cases h50 : F64.lt w wLow = true
   · simp only [h50, if_true, rbLow, and_self]
@@ -315,9 +331,9 @@ def mMode3 (s : State) (now : Int) (offset : Int) (w pw : F64.F64) : Outcome :=
     if F64.lt dt fzero then .panic .clock
     else track s now mdt dt offset w pw
 
-theorem mode3_agree (l : S_Pll) (offset : Int64) (w : F64.F64) (now : Int) (pw : F64.F64) :
-    Agree (gMode3 l offset w now pw) (mMode3 (pl l) now offset.toInt w pw) := by
-  unfold gMode3 mMode3
+theorem mode3_agree (l : S_Pll) (offset : Int64) (w : F64.F64) (now : Int) (pf : F64.F64 → F64.F64 → F64.F64) :
+    Agree (gMode3 l offset w now pf) (mMode3 (pl l) now offset.toInt w (pf stiffenRate (dtOf l now))) := by
+  unfold gMode3 mMode3 dtOf
   simp only [Int64.lt_iff_toInt_lt, sub_eq, c0i, k0, decide_eq_true_eq]
   have ht0 : (pl l).t0 = l.t0 := rfl
   have ht : (pl l).t = l.t := rfl
@@ -328,12 +344,13 @@ theorem mode3_agree (l : S_Pll) (offset : Int64) (w : F64.F64) (now : Int) (pw :
     by_cases h2 : F64.lt (F64.durationSeconds (timeSub now l.t)) fzero = true
     · simp only [h2, if_true]; trivial
     · simp only [h2, if_false, Bool.false_eq_true]
-      obtain ⟨ga, gb, gl⟩ := gains_agree l (Go.Time.sub now l.t0) w pw
+      generalize hdt : F64.durationSeconds (timeSub now l.t) = dt
+      obtain ⟨ga, gb, gl⟩ := gains_agree l (Go.Time.sub now l.t0) w pf dt
       rw [sub_eq] at ga gb gl
-      have h := track_agree (gGains l (Go.Time.sub now l.t0) w pw).2.2 (gGains l (Go.Time.sub now l.t0) w pw).1
-        (gGains l (Go.Time.sub now l.t0) w pw).2.1 (F64.durationSeconds (timeSub now l.t)) offset now
+      have h := track_agree (gGains l (Go.Time.sub now l.t0) w pf dt).2.2 (gGains l (Go.Time.sub now l.t0) w pf dt).1
+        (gGains l (Go.Time.sub now l.t0) w pf dt).2.1 dt offset now
       unfold track
-      rcases hg : gains (pl l) (timeSub now l.t0) w pw with ⟨s, a, b⟩
+      rcases hg : gains (pl l) (timeSub now l.t0) w (pf stiffenRate dt) with ⟨s, a, b⟩
       rw [hg] at ga gb gl
       simp only at ga gb gl ⊢
       rw [gl, ga, gb] at h
@@ -433,14 +450,23 @@ theorem mode2_agree (l : S_Pll) (now : Int) (hm : l.mode = 2) :
       rw [k0] at h
       exact h
 
-/-- **The tie, for all inputs**: the regenerated `(*Pll).Do` and the model `Pll.step` agree on
-    every state, offset, weight, clock epoch, clock reading and `math.Pow` result. -/
-theorem C19_leaf_Do (l : S_Pll) (off : Int64) (w : F64.F64) (e : UInt64) (now : Int) (pw : F64.F64) :
-    Agree (adjustments_Pll_Do l off w e now pw) (step (pl l) e.toNat now off.toInt w pw) := by
+theorem gSync_t (l : S_Pll) (e1 e2 : UInt64) : (gSync l e1 e2).t = l.t := by
+  unfold gSync; split <;> rfl
+
+/-- **The tie when both epoch readings agree**: the regenerated `(*Pll).Do` and the model `Pll.step`
+    agree on every state, offset, weight, clock epoch, clock reading and EVERY function standing for
+    `math.Pow`; the model's `pow` input is that function **at the arguments the code passes**:
+    `stiffenRate` and `dt = now.Sub(l.t).Seconds()`, at both call sites. -/
+theorem C19_leaf_Do_stable (l : S_Pll) (off : Int64) (w : F64.F64) (e : UInt64) (now : Int)
+    (pf : F64.F64 → F64.F64 → F64.F64) :
+    Agree (adjustments_Pll_Do l off w e e now pf)
+      (step (pl l) e.toNat now off.toInt w (pf stiffenRate (dtOf l now))) := by
   rw [do_pieces, step_pieces]
   simp only
   rw [← pl_sync, ← inv_eq]
-  generalize gSync l e = l'
+  have hdt : dtOf l now = dtOf (gSync l e e) now := by unfold dtOf; rw [gSync_t]
+  rw [hdt]
+  generalize gSync l e e = l'
   have hmode : (pl l').mode = l'.mode.toNat := rfl
   rw [hmode]
   by_cases hm0 : l'.mode = 0
@@ -473,17 +499,77 @@ theorem C19_leaf_Do (l : S_Pll) (off : Int64) (w : F64.F64) (e : UInt64) (now : 
         · have t : l'.mode.toNat = 3 := by rw [hm3]; rfl
           have b3 : (l'.mode == 3) = true := by simp [hm3]
           rw [b3, if_pos t]
-          exact mode3_agree l' _ w now pw
+          exact mode3_agree l' _ w now pf
         · have n3 : ¬ l'.mode.toNat = 3 := fun h => hm3 (UInt64.toNat_inj.mp (by rw [h]; rfl))
           have b3 : (l'.mode == 3) = false := by simpa using hm3
           rw [b3, if_neg n3]
           trivial
 
+
+/-- What the two readings of `l.clk.Epoch()` amount to: the receiver after the epoch test and the
+    epoch the rest of `Do` runs under. -/
+def readEpoch (l : S_Pll) (e1 e2 : UInt64) : S_Pll × UInt64 :=
+  if (l.epoch != e1) then ({ l with epoch := e2, mode := 0 }, e2) else (l, e1)
+
+theorem gSync_read (l : S_Pll) (e1 e2 : UInt64) :
+    gSync l e1 e2 = gSync (readEpoch l e1 e2).1 (readEpoch l e1 e2).2 (readEpoch l e1 e2).2 := by
+  unfold gSync readEpoch
+  by_cases he : (l.epoch != e1) = true
+  · simp [he]
+  · have heb : (l.epoch != e1) = false := by simpa using he
+    simp [heb]
+
+theorem readEpoch_t (l : S_Pll) (e1 e2 : UInt64) : (readEpoch l e1 e2).1.t = l.t := by
+  unfold readEpoch; split <;> rfl
+
+/-- `Do` with two different epoch readings is `Do` on the re-synchronised receiver under one. -/
+theorem C19_leaf_Do_two_readings (l : S_Pll) (off : Int64) (w : F64.F64) (e1 e2 : UInt64) (now : Int)
+    (pf : F64.F64 → F64.F64 → F64.F64) :
+    adjustments_Pll_Do l off w e1 e2 now pf =
+      adjustments_Pll_Do (readEpoch l e1 e2).1 off w (readEpoch l e1 e2).2 (readEpoch l e1 e2).2 now pf := by
+  rw [do_pieces, do_pieces, ← gSync_read]
+
+/-- **The tie, for all inputs** (no hypothesis): every state, offset, weight, every pair of epoch
+    readings, every clock reading, every function standing for `math.Pow`. -/
+theorem C19_leaf_Do (l : S_Pll) (off : Int64) (w : F64.F64) (e1 e2 : UInt64) (now : Int)
+    (pf : F64.F64 → F64.F64 → F64.F64) :
+    Agree (adjustments_Pll_Do l off w e1 e2 now pf)
+      (step (pl (readEpoch l e1 e2).1) (readEpoch l e1 e2).2.toNat now off.toInt w (pf stiffenRate (dtOf l now))) := by
+  rw [C19_leaf_Do_two_readings]
+  have h := C19_leaf_Do_stable (readEpoch l e1 e2).1 off w (readEpoch l e1 e2).2 now pf
+  have hdt : dtOf (readEpoch l e1 e2).1 now = dtOf l now := by unfold dtOf; rw [readEpoch_t]
+  rw [hdt] at h
+  exact h
+
+/-- The old shape of the tie (one epoch value, one `math.Pow` value): the special case of a stable
+    epoch and a constant function. Props/C19Gen.lean works with this instance; by
+    `C19_leaf_Do_pow_args` and `C19_leaf_Do_two_readings` every call is such an instance. -/
+theorem C19_leaf_Do_const (l : S_Pll) (off : Int64) (w : F64.F64) (e : UInt64) (now : Int) (pw : F64.F64) :
+    Agree (adjustments_Pll_Do l off w e e now (fun _ _ => pw)) (step (pl l) e.toNat now off.toInt w pw) :=
+  C19_leaf_Do_stable l off w e now (fun _ _ => pw)
+
+/-- **The arguments of `math.Pow` are pinned**: the generated `Do` depends on the function standing
+    for `math.Pow` only through its value at `(stiffenRate, dt)`. A call site with other arguments
+    (`Pow(stiffenRate, dt/2)`, `Pow(dt, stiffenRate)`, …) makes this false for the regenerated
+    definition. -/
+theorem C19_leaf_Do_pow_args (l : S_Pll) (off : Int64) (w : F64.F64) (e1 e2 : UInt64) (now : Int)
+    (pf : F64.F64 → F64.F64 → F64.F64) :
+    adjustments_Pll_Do l off w e1 e2 now pf =
+      adjustments_Pll_Do l off w e1 e2 now (fun _ _ => pf stiffenRate (dtOf l now)) := by
+  rw [do_pieces, do_pieces]
+  have ht := gSync_t l e1 e2
+  simp only
+  generalize gSync l e1 e2 = l' at ht ⊢
+  have h3 : gMode3 l' (timemath_Inv off) w now pf =
+      gMode3 l' (timemath_Inv off) w now (fun _ _ => pf stiffenRate (dtOf l now)) := by
+    simp only [gMode3, gGains, dtOf, stiffenRate, sub_eq, ht]
+  rw [h3]
+
 /-- non-vacuity: the generated definition steps the clock in the awaiting-step mode (a 5 ms offset,
     weight 1000, 3 s after the start of the epoch) … -/
 example :
     (adjustments_Pll_Do { epoch := 7, mode := 1, t0 := 0, t := 0, a := fzero, b := fzero, i := fzero }
-        5000000 (F64.ofInt 1000) 7 3000000000 (F64.ofInt 1)).map (·.2) =
+        5000000 (F64.ofInt 1000) 7 7 3000000000 (fun _ _ => F64.ofInt 1)).map (·.2) =
       some [Go.ClkAction.step 5000000] := by
   decide +kernel
 
@@ -492,7 +578,25 @@ example :
     gives `Adjust(8 ms, 16 s, ·)`. -/
 def demoTrack : Option (S_Pll × List Go.ClkAction) :=
   adjustments_Pll_Do { epoch := 7, mode := 3, t0 := 0, t := 285000000000, a := pInit, b := bMid, i := fzero }
-    1000000000 (F64.ofInt 1000) 7 301000000000 (F64.ofConst 1 2)
+    1000000000 (F64.ofInt 1000) 7 7 301000000000 (fun _ _ => F64.ofConst 1 2)
+
+/-- non-vacuity of the argument pin: a function that is 1/2 at `(0.999, 16 s)` and 1 elsewhere halves
+    the gains exactly as the constant function does; one that is 1/2 only at `(0.999, 8 s)` does not. -/
+def powAt (x y : F64.F64) : F64.F64 → F64.F64 → F64.F64 :=
+  fun a b => if a = x ∧ b = y then F64.ofConst 1 2 else F64.ofInt 1
+
+example : (adjustments_Pll_Do { epoch := 7, mode := 3, t0 := 0, t := 285000000000, a := pInit, b := bMid, i := fzero }
+    1000000000 (F64.ofInt 1000) 7 7 301000000000 (powAt stiffenRate (F64.ofInt 16))).map (fun r => r.1.a)
+      = some (F64.mul pInit (F64.ofConst 1 2)) := by decide +kernel
+example : (adjustments_Pll_Do { epoch := 7, mode := 3, t0 := 0, t := 285000000000, a := pInit, b := bMid, i := fzero }
+    1000000000 (F64.ofInt 1000) 7 7 301000000000 (powAt stiffenRate (F64.ofInt 8))).map (fun r => r.1.a)
+      = some (F64.mul pInit (F64.ofInt 1)) := by decide +kernel
+
+/-- a second, different epoch reading is stored (and restarts the PLL) although the first matched
+    nothing: epoch 7, readings 8 then 9 -/
+example : (adjustments_Pll_Do { epoch := 7, mode := 3, t0 := 0, t := 0, a := pInit, b := bMid, i := fzero }
+    0 (F64.ofInt 1) 8 9 5 (fun _ _ => F64.ofInt 1)).map (fun r => (r.1.epoch, r.1.mode)) = some (9, 1) := by
+  decide +kernel
 
 example : demoTrack.map (fun r => r.2.map (fun a => match a with
     | .step o => [o] | .adjust o d _ => [o, d])) = some [[8000000, 16000000000]] := by decide +kernel
